@@ -48,7 +48,7 @@ func checkC20(s *Scenario) (*Failure, *sinkObs) {
 		return &Failure{Check: "tree-touched", Observed: firstDiff(before, after)}, obs
 	}
 	if s.Writer == nil {
-		for i, fl := range []string{"writer", "stringwriter"} {
+		for i, fl := range []string{"writer", "stringwriter", "richwriter"} {
 			w2, ww := newSimWriter(&WriterScn{Flavour: fl, FailAt: -1, ByteBudget: -1})
 			if err := formatBlocks(ww, blocks); err != nil {
 				return &Failure{Check: "healthy-err", Observed: fmt.Sprintf("Format run %d (%s) returned %v", i+2, fl, err)}, obs
